@@ -1320,17 +1320,31 @@ def observe_trunc(W, nd, s):
         # a correct hasher refuses before computing the digest; bound the cost of a wrong one (never run at huge costs)
         if "error" in s["lo"] or "error" in s["hi"] or max(est_ms(M, s["lo"]), est_ms(M, s["hi"])) > 400.0:
             return "skipped"
-    long_pw = "x" * (M.trunc_size + 1)
-    try:
-        with env.scripted_rng(PinRng("lo", W.fa)):
-            nd.obj.hash(long_pw, **M.ckw)
-    except exc.PasswordTruncateError:
-        return "refused"
-    except core.HarnessError:
-        raise
-    except Exception as e:  # noqa: BLE001
-        return "raises:" + type(e).__name__
-    return "accepted"
+    # passwords one byte over the limit: plain ASCII, and text that only EXCEEDS it in the form the algorithm consumes
+    # (UTF-8 bytes of a two-byte character; for lmhash the upper-cased OEM text: 'ß' becomes 'SS')
+    long_pws = ["x" * (M.trunc_size + 1)]
+    if M.name == "lmhash":
+        long_pws.append("a" * (M.trunc_size - 1) + "\u00df")
+    elif M.trunc_size > 1:
+        long_pws.append("x" * (M.trunc_size - 1) + "\u00e9")
+    verdicts = []
+    for long_pw in long_pws:
+        try:
+            with env.scripted_rng(PinRng("lo", W.fa)):
+                nd.obj.hash(long_pw, **M.ckw)
+        except exc.PasswordTruncateError:
+            verdicts.append("refused")
+        except core.HarnessError:
+            raise
+        except Exception as e:  # noqa: BLE001
+            verdicts.append("raises:" + type(e).__name__)
+        else:
+            verdicts.append("accepted")
+    if len(set(verdicts)) == 1:
+        return verdicts[0]
+    # the policy is not applied uniformly: report the verdict that contradicts the configured policy
+    bad = "accepted" if want else "refused"
+    return bad if bad in verdicts else verdicts[0]
 
 
 def compare(W, nd, s):
